@@ -13,7 +13,7 @@
 From SV Require Import Base.Prelude Base.Bytes Model.FrameBase Model.FrameTypes Model.FrameResp
   Model.FrameCustom Model.FrameEnc Model.FrameChunk Model.FrameValues Proofs.FrameBase_proofs Proofs.FrameTop_proofs
   Proofs.FrameCustom_proofs Proofs.FrameC08_proofs Proofs.FrameChunk_proofs Proofs.FrameValues_proofs
-  Proofs.FrameLocal_proofs Proofs.C08_d4_proofs.
+  Proofs.FrameLocal_proofs Proofs.C08_d4_proofs Model.FrameGuard Proofs.FrameGuard_proofs.
 Open Scope N_scope.
 
 (* well-formed response decoded exactly, under every feature combination, whatever follows *)
@@ -509,6 +509,62 @@ Example C08_ex_round4 :
   tuple_rows_first_error 1 [ex_ccol 97] [[Some [0; 0; 7]]; [Some []]] 0 = Some 0.
 Proof. repeat split; vm_compute; try reflexivity; try lia; discriminate. Qed.
 
+
+(* ---- wave-4 follow-up: the claimed-size guards of frame::decompress (Model/FrameGuard.v) ---- *)
+(* A body produced by the codec's own encoder passes the guard and is decompressed to what was encoded,
+   under the NAMED hypotheses on the codec (preamble = plain length; maximum expansion: plain <= 32 x
+   compressed for Snappy, <= 255 x block for LZ4; the raw decoder inverts the encoder).  The tie (kind Z)
+   evaluates the expansion hypothesis (within_expansion) on the REAL encoders' output.  With
+   decompress := guarded_decompress this is the codec premise of C08_roundtrip for bodies below 4 GiB. *)
+Theorem C08_guard_passes_snappy : forall (snappy_compress : bytes -> bytes) (raw : bytes -> option bytes),
+  (forall b, lenN b < 2 ^ 32 -> FrameGuard.snappy_claimed (snappy_compress b) = Some (lenN b)) ->
+  (forall b, lenN b < 2 ^ 32 -> lenN b <= FrameGuard.SNAPPY_MAX_EXPANSION * lenN (snappy_compress b)) ->
+  (forall b, lenN b < 2 ^ 32 -> raw (snappy_compress b) = Some b) ->
+  forall b, lenN b < 2 ^ 32 ->
+  FrameGuard.guard FrameGuard.CSnappy (snappy_compress b) = FrameGuard.GPass /\
+  FrameGuard.guarded_decompress FrameGuard.CSnappy raw (snappy_compress b) = Some b.
+Proof.
+  intros sc raw H1 H2 H3 b Hb. split.
+  - exact (snappy_guard_passes sc H1 H2 b Hb).
+  - exact (snappy_guarded_roundtrip sc raw H1 H2 H3 b Hb).
+Qed.
+
+Theorem C08_guard_passes_lz4 : forall (lz4_block : bytes -> bytes) (raw : bytes -> option bytes),
+  (forall b, lenN b < 2 ^ 32 -> lenN b <= FrameGuard.LZ4_MAX_EXPANSION * lenN (lz4_block b)) ->
+  (forall b, lenN b < 2 ^ 32 -> raw (lz4_compress lz4_block b) = Some b) ->
+  forall b, lenN b < 2 ^ 32 ->
+  FrameGuard.guard FrameGuard.CLz4 (lz4_compress lz4_block b) = FrameGuard.GPass /\
+  FrameGuard.guarded_decompress FrameGuard.CLz4 raw (lz4_compress lz4_block b) = Some b.
+Proof.
+  intros lb raw H2 H3 b Hb. split.
+  - exact (lz4_guard_passes lb H2 b Hb).
+  - exact (lz4_guarded_roundtrip lb raw H2 H3 b Hb).
+Qed.
+
+(* a refusal by the guard means, without any hypothesis, a claim above R x the available bytes *)
+Theorem C08_guard_refused_sound : forall c comp, FrameGuard.guard c comp = FrameGuard.GRefused ->
+  match c with
+  | FrameGuard.CLz4 => exists a b c' d rest, comp = a :: b :: c' :: d :: rest /\
+            FrameGuard.LZ4_MAX_EXPANSION * lenN rest < be_dec [a; b; c'; d]
+  | FrameGuard.CSnappy => exists n, FrameGuard.snappy_claimed comp = Some n /\ FrameGuard.SNAPPY_MAX_EXPANSION * lenN comp < n
+  end.
+Proof. exact guard_refused_sound. Qed.
+
+Example C08_ex_guard :
+  FrameGuard.guard FrameGuard.CSnappy [100; 0; 0; 254; 1; 0; 138; 1; 0] = FrameGuard.GPass /\
+  FrameGuard.guard FrameGuard.CSnappy [255; 255; 255; 255; 15; 0; 0; 0; 0; 0; 0; 0; 0; 0; 0; 0] = FrameGuard.GRefused /\
+  FrameGuard.guard FrameGuard.CSnappy [191; 2; 0; 0; 0; 0; 0; 0; 0] = FrameGuard.GPass /\
+  FrameGuard.guard FrameGuard.CSnappy [192; 2; 0; 0; 0; 0; 0; 0; 0] = FrameGuard.GRefused /\
+  FrameGuard.guard FrameGuard.CLz4 [0; 0; 0] = FrameGuard.GShort /\
+  FrameGuard.guard FrameGuard.CLz4 [0; 0; 1; 254; 7] = FrameGuard.GRefused /\
+  FrameGuard.guard FrameGuard.CLz4 [0; 0; 0; 254; 7] = FrameGuard.GPass /\
+  FrameGuard.within_expansion FrameGuard.CSnappy 65536 3100 = true /\
+  FrameGuard.within_expansion FrameGuard.CSnappy 65536 2000 = false.
+Proof. vm_compute. repeat split; reflexivity. Qed.
+
+Print Assumptions C08_guard_passes_snappy.
+Print Assumptions C08_guard_passes_lz4.
+Print Assumptions C08_guard_refused_sound.
 Print Assumptions C08_roundtrip.
 Print Assumptions C08_truncation.
 Print Assumptions C08_truncation_body.
